@@ -249,11 +249,11 @@ Proof.
 Qed.
 
 Definition probe_ok_b (p : plat) (meth site : string) (e1 e2 : err) (z : bool) : bool :=
-  implb (err_ok p e1 && err_ok p e2 && negb (known_probe_raw p meth site e1 e2 z))
+  implb (err_ok p e1 && err_ok p e2)
         (existsb (res_eqb (probe_outcome p meth site e1 e2 z)) (probe_allowed p meth site e1 e2 z)).
 
 Ltac probe_unfold :=
-  unfold probe_ok_b, probe_outcome, probe_allowed, translations, known_probe_raw, nosuch_failure, recovery,
+  unfold probe_ok_b, probe_outcome, probe_allowed, translations, nosuch_failure, recovery,
     method_outcome, inner, wrap_procfs.
 
 Lemma probe_b_all : forall p meth site e1 e2 z, probe_ok_b p meth site e1 e2 z = true.
@@ -272,24 +272,24 @@ Qed.
 
 (* for EVERY method / call names, e1, e2 and pid: the model's outcome lies in the acceptable set *)
 Theorem probe_model : forall p meth site e1 e2 z,
-  err_ok p e1 = true -> err_ok p e2 = true -> known_probe_raw p meth site e1 e2 z = false ->
+  err_ok p e1 = true -> err_ok p e2 = true ->
   In (probe_outcome p meth site e1 e2 z) (probe_allowed p meth site e1 e2 z).
 Proof.
-  intros p meth site e1 e2 z H1 H2 Hk.
-  pose proof (probe_b_all p meth site e1 e2 z) as H. unfold probe_ok_b in H. rewrite H1, H2, Hk in H. cbn in H.
+  intros p meth site e1 e2 z H1 H2.
+  pose proof (probe_b_all p meth site e1 e2 z) as H. unfold probe_ok_b in H. rewrite H1, H2 in H. cbn in H.
   apply existsb_exists in H as [r [Hin Hr]]. apply res_eqb_eq in Hr. subst. exact Hin.
 Qed.
 
 (* ... and a "no such process" / permission failure of the method's own call never ends as a bare OSError *)
 Theorem probe_no_raw : forall p meth site e1 e2 z,
-  err_ok p e1 = true -> err_ok p e2 = true -> known_probe_raw p meth site e1 e2 z = false ->
+  err_ok p e1 = true -> err_ok p e2 = true ->
   nosuch_failure p meth site e1 || perm_failure e1 = true ->
   (forall s, recovery p meth site (Build_cond e1 s z) = None) ->
   probe_outcome p meth site e1 e2 z <> RRaw /\ probe_outcome p meth site e1 e2 z <> RRawProbe
   /\ probe_outcome p meth site e1 e2 z <> RVal.
 Proof.
-  intros p meth site e1 e2 z H1 H2 Hk Hc Hr.
-  pose proof (probe_model p meth site e1 e2 z H1 H2 Hk) as Hin.
+  intros p meth site e1 e2 z H1 H2 Hc Hr.
+  pose proof (probe_model p meth site e1 e2 z H1 H2) as Hin.
   unfold probe_allowed in Hin. rewrite Hc in Hin. cbn [flat_map app] in Hin.
   rewrite !Hr in Hin. cbn [app] in Hin. rewrite !app_nil_r in Hin.
   assert (Ht : forall e r, In r (translations p meth site e) -> r = RNoSuch \/ r = RZombie \/ r = RDenied).
@@ -299,16 +299,9 @@ Proof.
   apply in_app_or in Hin as [Hi|Hi]; apply Ht in Hi; destruct Hi as [->|[->| ->]]; repeat split; discriminate.
 Qed.
 
-(* finding: Solaris, os.kill() of the pid_exists() probe failing with something else than ESRCH / EPERM *)
-Theorem probe_sunos_refuted :
-  err_ok SunOS ESRCH = true /\ nosuch_failure SunOS "cmdline" "proc_name_and_args" ESRCH = true
-  /\ probe_outcome SunOS "cmdline" "proc_name_and_args" ESRCH EIO false = RRawProbe
-  /\ existsb (res_eqb RRawProbe) (probe_allowed SunOS "cmdline" "proc_name_and_args" ESRCH EIO false) = false.
-Proof. vm_compute. auto. Qed.
-
 Example probe_nontrivial :
   probe_allowed MacOS "cmdline" "proc_cmdline" ESRCH EPERM false = [RNoSuch; RZombie; RDenied]
   /\ probe_outcome MacOS "cmdline" "proc_cmdline" ESRCH EPERM false = RNoSuch
   /\ probe_outcome FreeBSD "ppid" "proc_oneshot_info" EIO EPERM true = RDenied
-  /\ known_probe_raw MacOS "cmdline" "proc_cmdline" ESRCH EPERM false = false.
+  /\ probe_outcome SunOS "cmdline" "proc_name_and_args" ESRCH EIO false = RZombie.   (* kill(2) cannot fail with EIO: the PID is found *)
 Proof. vm_compute. auto. Qed.
